@@ -54,19 +54,19 @@ impl<T> ResourceStorage<T> {
 	pub fn remove_and_add(&mut self, remove_test: impl FnMut(&T) -> bool) {
 		for (_, resource) in self.resources.drain_filter(remove_test) {
 			#[cfg(kira_verif)]
-			crate::verif::point("sto.removed");
+			crate::verif::point_in("sto.removed", std::any::type_name::<T>());
 			self.unused_resource_producer
 				.push(resource)
 				.unwrap_or_else(|_| panic!("unused resource producer is full"));
 		}
 		#[cfg(kira_verif)]
-		crate::verif::point("sto.refill");
+		crate::verif::point_in("sto.refill", std::any::type_name::<T>());
 		while let Ok((key, resource)) = self.new_resource_consumer.pop() {
 			self.resources
 				.insert_with_key(key, resource)
 				.expect("error inserting resource");
 			#[cfg(kira_verif)]
-			crate::verif::point("sto.refill");
+			crate::verif::point_in("sto.refill", std::any::type_name::<T>());
 		}
 	}
 
@@ -137,14 +137,14 @@ impl<T> SelfReferentialResourceStorage<T> {
 	pub fn remove_and_add(&mut self, remove_test: impl FnMut(&T) -> bool) {
 		self.remove_unused(remove_test);
 		#[cfg(kira_verif)]
-		crate::verif::point("sto.refill");
+		crate::verif::point_in("sto.refill", std::any::type_name::<T>());
 		while let Ok((key, resource)) = self.new_resource_consumer.pop() {
 			self.resources
 				.insert_with_key(key, resource)
 				.expect("error inserting resource");
 			self.keys.push(key);
 			#[cfg(kira_verif)]
-			crate::verif::point("sto.refill");
+			crate::verif::point_in("sto.refill", std::any::type_name::<T>());
 		}
 	}
 
@@ -175,7 +175,7 @@ impl<T> SelfReferentialResourceStorage<T> {
 			if remove_test(resource) {
 				let resource = self.resources.remove(key).unwrap();
 				#[cfg(kira_verif)]
-				crate::verif::point("sto.removed");
+				crate::verif::point_in("sto.removed", std::any::type_name::<T>());
 				self.unused_resource_producer
 					.push(resource)
 					.unwrap_or_else(|_| panic!("unused resource producer is full"));
@@ -207,7 +207,7 @@ impl<T> ResourceController<T> {
 	pub fn insert(&mut self, resource: T) -> Result<Key, ResourceLimitReached> {
 		let key = self.try_reserve()?;
 		#[cfg(kira_verif)]
-		crate::verif::point("ctl.reserved");
+		crate::verif::point_in("ctl.reserved", std::any::type_name::<T>());
 		self.insert_with_key(key, resource);
 		Ok(key)
 	}
@@ -221,7 +221,7 @@ impl<T> ResourceController<T> {
 	pub fn insert_with_key(&mut self, key: Key, resource: T) {
 		self.remove_unused();
 		#[cfg(kira_verif)]
-		crate::verif::point("ctl.drained");
+		crate::verif::point_in("ctl.drained", std::any::type_name::<T>());
 		self.new_resource_producer
 			.get_mut()
 			.expect("new resource producer mutex poisoned")
